@@ -96,6 +96,7 @@ let rc (toks : string list) =
     | "a" :: i :: r -> go r (Attach (nat_of_int (int_of_string i)) :: acc)
     | "d" :: i :: r -> go r (Detach (nat_of_int (int_of_string i)) :: acc)
     | "np" :: c :: r -> Hashtbl.replace poly_ctx !npoly (int_of_string c); incr npoly; go r (Attach (nat_of_int (int_of_string c)) :: acc)
+    | "up" :: _ :: r -> go r acc      (* using a polynomial as an output operand changes no reference count *)
     | "dp" :: j :: r -> go r (Detach (nat_of_int (Hashtbl.find poly_ctx (int_of_string j))) :: acc)
     | _ -> failwith "bad rc token" in
   let ops = go toks [] in
@@ -110,6 +111,10 @@ let rc (toks : string list) =
 let run (toks : string list) (cout : string list) : string =
   match toks with
   | ["pdst"; op; a; b; prior] -> pdst op a b prior cout
+  | ["pdst2"; _; a; b; _; _] ->
+    let (res, ins) = split_in cout in
+    if ins <> [string_of_mpoly (mpoly_of_string a); string_of_mpoly (mpoly_of_string b)] then "CHECK fail: an input operand was modified"
+    else if all_equal res && res <> [] then "CHECK ok" else "CHECK fail: results differ between fresh / pre-used / aliased outputs"
   | ["vdst"; op; a; b; _] -> vdst op a b cout
   | "idst" :: _ -> if all_equal cout && cout <> [] then "CHECK ok" else "CHECK fail: interval results differ between output operands"
   | "rc" :: rest -> rc rest
